@@ -549,6 +549,8 @@ class CallMixin:
         if d in ("operator.add", "operator.sub", "operator.mul", "operator.truediv", "operator.pow") and len(args) == 2 and not kwargs:
             opn = {"add": ast.Add(), "sub": ast.Sub(), "mul": ast.Mult(), "truediv": ast.Div(), "pow": ast.Pow()}[d.split(".")[1]]
             return self.binop(opn, args[0], args[1], frame, node)
+        if d in ("builtins.staticmethod", "builtins.classmethod") and len(args) == 1:
+            return args[0]      # the plain function: how it is bound is decided where it is looked up
         if d == "operator.methodcaller" and args:
             nm = self.resolve_maybe(args[0])
             if not (isinstance(nm, StrV) and nm.s is not None):
@@ -658,6 +660,8 @@ class CallMixin:
             return Num(Rat.atom(a))
         if d in ("builtins.type", "builtins.isinstance", "builtins.hasattr"):
             return BoolV(None, (d, ) + tuple(key_str(val_key(a)) for a in args)) if d != "builtins.type" else Opaque("type")
+        if d in ("logging.getLogger", "logging.getLoggerClass", "logging.LoggerAdapter"):
+            return Opaque("logger")     # an object whose methods only emit diagnostics
         if d.startswith(("logging.", "warnings.")) or (isinstance(self_val, Opaque) and self_val.desc.startswith(("logging.", "logger"))):
             self.ctx.event("log", d, frame.loc(node))
             return NONE    # diagnostics: no value, no effect on the model
